@@ -301,6 +301,8 @@ func (m *Model) deleteMode(id string, opts ...resource.WriteOption) error {
 // UpdateMode will modify one of the modes stored in this device.
 // The mode to be modified is specified by mode.Id, which must be set.
 // Fields to be modified can be selected using mask - to modify all fields, pass a nil mask.
+// If the update sets Normal == true, and the device already has a different normal mode, then ErrNormalModeExists
+// will result.
 func (m *Model) UpdateMode(mode *traits.ElectricMode, opts ...resource.WriteOption) (*traits.ElectricMode, error) {
 	m.mu.Lock()
 	defer m.mu.Unlock()
@@ -308,11 +310,33 @@ func (m *Model) UpdateMode(mode *traits.ElectricMode, opts ...resource.WriteOpti
 }
 
 func (m *Model) updateMode(mode *traits.ElectricMode, opts ...resource.WriteOption) (*traits.ElectricMode, error) {
+	// if this update marks the mode as normal, check that there isn't another normal mode
+	if mode.Normal && updatesNormal(opts...) {
+		if normal, ok := m.normalMode(); ok && normal.Id != mode.Id {
+			return nil, ErrNormalModeExists
+		}
+	}
+
 	msg, err := m.modes.Update(mode.Id, mode, opts...)
 	if err != nil {
 		return nil, err
 	}
 	return msg.(*traits.ElectricMode), nil
+}
+
+// updatesNormal reports whether an update with the given options writes the Normal field of a mode.
+// It does unless an update mask is present that does not mention the field.
+func updatesNormal(opts ...resource.WriteOption) bool {
+	mask := resource.ComputeWriteConfig(opts...).UpdateMask
+	if mask == nil {
+		return true
+	}
+	for _, path := range mask.GetPaths() {
+		if path == "normal" {
+			return true
+		}
+	}
+	return false
 }
 
 // PullModes subscribes to changes to modes. Creation, modification or deletion of a mode on this device will send
